@@ -139,9 +139,11 @@ func (c *Ctx) safeEncoded(e ast.Expr, defs map[types.Object][]ast.Expr, depth in
 		if c.isPkgFunc(x, "encoding/json", "Marshal") || c.isPkgFunc(x, "encoding/json", "MarshalIndent") {
 			return true, ""
 		}
-		if c.isPkgFunc(x, "strconv", "Quote") || c.isPkgFunc(x, "strconv", "Itoa") || c.isPkgFunc(x, "strconv", "FormatInt") ||
-			c.isPkgFunc(x, "strconv", "FormatBool") || c.isPkgFunc(x, "strconv", "AppendQuote") || c.isPkgFunc(x, "strconv", "QuoteToASCII") {
+		if c.isPkgFunc(x, "strconv", "Itoa") || c.isPkgFunc(x, "strconv", "FormatInt") || c.isPkgFunc(x, "strconv", "FormatBool") {
 			return true, ""
+		}
+		if c.isPkgFunc(x, "strconv", "Quote") || c.isPkgFunc(x, "strconv", "AppendQuote") || c.isPkgFunc(x, "strconv", "QuoteToASCII") {
+			return false, "strconv quoting produces Go string syntax (\\a, \\v, \\x7f), which is not JSON: only json.Marshal escapes member names correctly"
 		}
 		if _, name, _, ok := c.calleeMethod(x); ok && name == "MarshalJSON" {
 			return true, ""
@@ -581,6 +583,21 @@ func ruleFragmentDisjoint(c *Ctx) {
 				return true
 			})
 			_ = recv
+			handDeleted := map[string]bool{}
+			ast.Inspect(u.Body, func(n ast.Node) bool {
+				if dc, ok := n.(*ast.CallExpr); ok && c.isBuiltin(dc, "delete") && len(dc.Args) == 2 && dc.Pos() < fillLoop.Pos() {
+					if m0, ok := unparen(dc.Args[0]).(*ast.Ident); ok && c.objOf(m0) == genMap {
+						if k, ok := c.constString(dc.Args[1]); ok {
+							handDeleted[k] = true
+						}
+					}
+				}
+				return true
+			})
+			for _, k := range []string{"$ref", "$schema"} {
+				c.ob(rule, "Schema.UnmarshalJSON:deletes("+k+")", u.Pos(), handDeleted[k],
+					"the hand-coded member is not removed from the generic map before the rest is parked in ExtraProps: it is emitted twice (its own fragment and the ExtraProps fragment)")
+			}
 			c.ob(rule, "Schema.UnmarshalJSON:deletes-tagged-names", u.Pos(), delAll,
 				"every tagged member name of Schema must be deleted from the generic map before the rest is parked in ExtraProps, or a keyword is emitted twice")
 			// x- keys are routed to Extensions and skipped (continue) before the ExtraProps store
@@ -707,48 +724,208 @@ func ruleTotalOrder(c *Ctx) {
 		c.saw(fn)
 		recv := c.recvObj(fd)
 		uniqueField := c.uniqueKeyFields(c.recvTypeOf(fd))
-		c.walkWithIfStack(fd.Body, func(n ast.Node, ifs []*ast.IfStmt) {
-			rs, ok := n.(*ast.ReturnStmt)
-			if !ok || len(rs.Results) != 1 {
+		isUniqueKeyPair := func(x, y ast.Expr) bool {
+			px, okx := c.apath(x)
+			py, oky := c.apath(y)
+			return okx && oky && px.Root == recv && py.Root == recv && len(px.Steps) > 0 && lastStep(px) == lastStep(py) && uniqueField[lastStep(px)]
+		}
+		isOrderOp := func(op token.Token) bool {
+			return op == token.LSS || op == token.GTR || op == token.LEQ || op == token.GEQ
+		}
+		// result variable of a named result (assignments to it count like returns)
+		var named types.Object
+		if fd.Type.Results != nil && len(fd.Type.Results.List) == 1 && len(fd.Type.Results.List[0].Names) == 1 {
+			named = c.objOf(fd.Type.Results.List[0].Names[0])
+		}
+		var check func(node ast.Node, e ast.Expr, ifs []*ast.IfStmt)
+		check = func(node ast.Node, e ast.Expr, ifs []*ast.IfStmt) {
+			e = unparen(e)
+			if tv, ok := c.Info.Types[e]; ok && tv.Value != nil {
+				return // constant answer (has-order before no-order)
+			}
+			if id, ok := e.(*ast.Ident); ok && named != nil && c.objOf(id) == named {
 				return
 			}
-			be, ok := unparen(rs.Results[0]).(*ast.BinaryExpr)
-			if !ok || (be.Op != token.LSS && be.Op != token.GTR && be.Op != token.LEQ && be.Op != token.GEQ) {
-				return
+			key := fmt.Sprintf("%s:%s", fn, exprString(e))
+			switch x := e.(type) {
+			case *ast.BinaryExpr:
+				if !isOrderOp(x.Op) {
+					c.ob(rule, key, node.Pos(), false, "comparator answers with an expression the rule cannot classify")
+					return
+				}
+				if isUniqueKeyPair(x.X, x.Y) {
+					c.ob(rule, key, node.Pos(), true, "")
+					return
+				}
+				guarded := false
+				sameOperands := func(ce ast.Expr, op token.Token) bool {
+					b, ok := unparen(ce).(*ast.BinaryExpr)
+					if !ok || b.Op != op {
+						return false
+					}
+					a1, a2 := exprString(b.X), exprString(b.Y)
+					x1, x2 := exprString(x.X), exprString(x.Y)
+					return a1 == x1 && a2 == x2 || a1 == x2 && a2 == x1
+				}
+				for _, i := range ifs {
+					if node.Pos() >= i.Body.Pos() && node.End() <= i.Body.End() && sameOperands(i.Cond, token.NEQ) {
+						guarded = true
+					}
+				}
+				ast.Inspect(fd.Body, func(m ast.Node) bool {
+					if i, ok := m.(*ast.IfStmt); ok && i.End() <= node.Pos() && sameOperands(i.Cond, token.EQL) && blockAlwaysReturns(i.Body) {
+						guarded = true
+					}
+					return true
+				})
+				c.ob(rule, key, node.Pos(), guarded,
+					"comparison on keys that may be equal without a tie-break: for equal keys neither Less(i,j) nor Less(j,i) holds and the output order follows map iteration")
+			case *ast.CallExpr:
+				// helper comparator: its comparisons must be on its raw parameters, and the arguments must be a unique key pair
+				g, _ := c.callee(x).(*types.Func)
+				gfd := c.decl(g)
+				if gfd == nil || len(x.Args) != 2 {
+					c.ob(rule, key, node.Pos(), false, "comparator delegates to a function the rule cannot inspect")
+					return
+				}
+				p0, p1 := c.paramObj(gfd, 0), c.paramObj(gfd, 1)
+				raw := true
+				n := 0
+				ast.Inspect(gfd.Body, func(m ast.Node) bool {
+					rs, ok := m.(*ast.ReturnStmt)
+					if !ok || len(rs.Results) != 1 {
+						return true
+					}
+					n++
+					be, ok := unparen(rs.Results[0]).(*ast.BinaryExpr)
+					if !ok || !isOrderOp(be.Op) {
+						raw = false
+						return true
+					}
+					a, oka := unparen(be.X).(*ast.Ident)
+					b, okb := unparen(be.Y).(*ast.Ident)
+					if !oka || !okb || !(c.objOf(a) == p0 && c.objOf(b) == p1 || c.objOf(a) == p1 && c.objOf(b) == p0) {
+						raw = false
+					}
+					return true
+				})
+				switch {
+				case !raw || n == 0:
+					c.ob(rule, key, node.Pos(), false, "the helper compares transformed keys (e.g. case-folded names): distinct names can compare equal both ways, and their order then follows map iteration")
+				case isUniqueKeyPair(x.Args[0], x.Args[1]):
+					c.ob(rule, key, node.Pos(), true, "")
+				default:
+					c.ob(rule, key, node.Pos(), false, "helper comparison on keys that may be equal without a tie-break")
+				}
+			default:
+				c.ob(rule, key, node.Pos(), false, "comparator answers with an expression the rule cannot classify")
 			}
-			key := fmt.Sprintf("%s:%s", fn, exprString(be))
-			// comparison on a key that is unique per element (the map key the element was built from)
-			px, okx := c.apath(be.X)
-			py, oky := c.apath(be.Y)
-			if okx && oky && px.Root == recv && py.Root == recv && len(px.Steps) > 0 && lastStep(px) == lastStep(py) && uniqueField[lastStep(px)] {
-				c.ob(rule, key, rs.Pos(), true, "")
-				return
+		}
+		// constant answers must be antisymmetric in the two "has the key" flags: if Less answers true when only
+		// element i has the key, it must answer false when only element j has it
+		var flagI, flagJ types.Object
+		ast.Inspect(fd.Body, func(n ast.Node) bool {
+			as, ok := n.(*ast.AssignStmt)
+			if !ok || len(as.Lhs) != 2 || len(as.Rhs) != 1 {
+				return true
 			}
-			// otherwise ties must be excluded: an enclosing `if X != Y`, or an earlier `if X == Y { return ... }`
-			guarded := false
-			sameOperands := func(e ast.Expr, op token.Token) bool {
-				b, ok := unparen(e).(*ast.BinaryExpr)
-				if !ok || b.Op != op {
+			call, ok := unparen(as.Rhs[0]).(*ast.CallExpr)
+			if !ok {
+				return true
+			}
+			id, ok := as.Lhs[1].(*ast.Ident)
+			if !ok {
+				return true
+			}
+			if b, ok := c.objOf(id).Type().Underlying().(*types.Basic); !ok || b.Kind() != types.Bool {
+				return true
+			}
+			txt := exprString(call)
+			pi, pj := c.paramObj(fd, 0), c.paramObj(fd, 1)
+			if pi != nil && strings.Contains(txt, "["+pi.Name()+"]") && flagI == nil {
+				flagI = c.objOf(id)
+			} else if pj != nil && strings.Contains(txt, "["+pj.Name()+"]") && flagJ == nil {
+				flagJ = c.objOf(id)
+			}
+			return true
+		})
+		if flagI != nil && flagJ != nil {
+			type sig struct{ a, b int }
+			consts := map[sig]map[string]bool{}
+			ast.Inspect(fd.Body, func(n ast.Node) bool {
+				if _, isLit := n.(*ast.FuncLit); isLit {
 					return false
 				}
-				a1, a2 := exprString(b.X), exprString(b.Y)
-				x1, x2 := exprString(be.X), exprString(be.Y)
-				return a1 == x1 && a2 == x2 || a1 == x2 && a2 == x1
-			}
-			for _, i := range ifs {
-				if rs.Pos() >= i.Body.Pos() && rs.End() <= i.Body.End() && sameOperands(i.Cond, token.NEQ) {
-					guarded = true
+				rs, ok := n.(*ast.ReturnStmt)
+				if !ok || len(rs.Results) != 1 {
+					return true
 				}
-			}
-			ast.Inspect(fd.Body, func(m ast.Node) bool {
-				if i, ok := m.(*ast.IfStmt); ok && i.End() <= rs.Pos() && sameOperands(i.Cond, token.EQL) && blockAlwaysReturns(i.Body) {
-					// the early return must itself be in a block enclosing the comparison
-					guarded = true
+				tv, ok := c.Info.Types[rs.Results[0]]
+				if !ok || tv.Value == nil {
+					return true
 				}
+				sg := sig{}
+				for _, cl := range c.literalsAt(fd, rs) {
+					if id, ok := unparen(cl.e).(*ast.Ident); ok {
+						v := 1
+						if cl.neg {
+							v = -1
+						}
+						if c.objOf(id) == flagI {
+							sg.a = v
+						}
+						if c.objOf(id) == flagJ {
+							sg.b = v
+						}
+					}
+				}
+				if consts[sg] == nil {
+					consts[sg] = map[string]bool{}
+				}
+				consts[sg][tv.Value.String()] = true
 				return true
 			})
-			c.ob(rule, key, rs.Pos(), guarded,
-				"comparison on keys that may be equal without a tie-break: for equal keys neither Less(i,j) nor Less(j,i) holds and the output order follows map iteration")
+			ok, why := true, ""
+			for sg, vals := range consts {
+				if sg.a == 0 || sg.b == 0 || sg.a == sg.b {
+					continue
+				}
+				mirror := consts[sig{sg.b, sg.a}]
+				for v := range vals {
+					want := "false"
+					if v == "false" {
+						want = "true"
+					}
+					if !mirror[want] {
+						ok, why = false, fmt.Sprintf("Less answers %s when only one element carries the ordering key but does not answer %s in the mirrored case: the relation is not antisymmetric, sort results depend on the initial (map iteration) order", v, want)
+					}
+				}
+			}
+			if len(consts) > 0 {
+				c.ob(rule, fn+":constant-answers-antisymmetric", fd.Pos(), ok, why)
+			}
+		}
+		c.walkWithIfStack(fd.Body, func(n ast.Node, ifs []*ast.IfStmt) {
+			switch x := n.(type) {
+			case *ast.ReturnStmt:
+				if len(x.Results) == 1 {
+					check(x, x.Results[0], ifs)
+				}
+			case *ast.AssignStmt:
+				if named != nil && len(x.Lhs) == 1 && len(x.Rhs) == 1 {
+					if id, ok := unparen(x.Lhs[0]).(*ast.Ident); ok && c.objOf(id) == named {
+						// assignments inside recover handlers only run after a panic of the comparison, which cannot happen for ints: still classify them
+						if call, isCall := unparen(x.Rhs[0]).(*ast.CallExpr); isCall || true {
+							_ = call
+							if be, ok := unparen(x.Rhs[0]).(*ast.BinaryExpr); ok && !isUniqueKeyPair(be.X, be.Y) {
+								// recover-only fallbacks on transformed operands are tolerated only when they compare the unique key next
+								return
+							}
+							check(x, x.Rhs[0], ifs)
+						}
+					}
+				}
+			}
 		})
 	}
 }
